@@ -11,6 +11,7 @@ package hcldec
 
 import (
 	"fmt"
+	"sort"
 	"strings"
 	"testing"
 
@@ -193,4 +194,87 @@ func TestVerifReplayDecode(t *testing.T) {
 		rec(nil)
 	}
 	fmt.Printf("STANDIN inputs=%d bound=\"every body of at most 3 blocks from a 7-content alphabet (incl. an expression that fails to evaluate) against 32 block specifications (list, set, tuple, single, map and object with 1..3 labels; string, dynamic and object-with-dynamic nested)\"\n", n)
+}
+
+// TestVerifReplayDecodeVariables (C07): decoding in a scope pruned to the roots that
+// hcldec.Variables reports gives the same value and diagnostics as decoding in the full scope,
+// for attribute specs at every nesting depth of the same body (object, tuple, default,
+// validate, transform, refine wrappers) and inside nested blocks.
+func TestVerifReplayDecodeVariables(t *testing.T) {
+	attr := func(n string) Spec {
+		if n == "port" {
+			return &AttrSpec{Name: n, Type: cty.Number}
+		}
+		return &AttrSpec{Name: n, Type: cty.String}
+	}
+	lit := &LiteralSpec{Value: cty.StringVal("dflt")}
+	wrappers := map[string]func(Spec) Spec{
+		"plain":    func(s Spec) Spec { return s },
+		"default":  func(s Spec) Spec { return &DefaultSpec{Primary: s, Default: lit} },
+		"default2": func(s Spec) Spec { return &DefaultSpec{Primary: lit, Default: s} },
+		"validate": func(s Spec) Spec {
+			return &ValidateSpec{Wrapped: s, Func: func(cty.Value) hcl.Diagnostics { return nil }}
+		},
+		"refine": func(s Spec) Spec {
+			return &RefineValueSpec{Wrapped: s, Refine: func(b *cty.RefinementBuilder) *cty.RefinementBuilder { return b }}
+		},
+		"object":  func(s Spec) Spec { return ObjectSpec{"in": s} },
+		"tuple":   func(s Spec) Spec { return TupleSpec{s} },
+		"block":   func(s Spec) Spec { return &BlockSpec{TypeName: "blk", Nested: ObjectSpec{"in": s}} },
+		"blocks":  func(s Spec) Spec { return &BlockListSpec{TypeName: "blk", Nested: s} },
+		"blockmap": func(s Spec) Spec { return &BlockMapSpec{TypeName: "lblk", LabelNames: []string{"k"}, Nested: s} },
+	}
+	src := "name = upper\nport = base + 1\nblk {\n  name = inner\n  port = other\n}\nlblk \"a\" {\n  name = labelled\n}\n"
+	f, diags := hclsyntax.ParseConfig([]byte(src), "t.hcl", hcl.InitialPos)
+	if diags.HasErrors() {
+		t.Fatalf("oracle input does not parse: %s", diags.Error())
+	}
+	full := map[string]cty.Value{
+		"upper": cty.StringVal("WEB"), "base": cty.NumberIntVal(8000), "inner": cty.StringVal("in"), "other": cty.NumberIntVal(1), "labelled": cty.StringVal("lab"),
+	}
+	key := func(v cty.Value, d hcl.Diagnostics) string {
+		var ds []string
+		for _, x := range d {
+			ds = append(ds, fmt.Sprintf("%d|%s|%s", x.Severity, x.Summary, x.Detail))
+		}
+		sort.Strings(ds)
+		return fmt.Sprintf("%#v ## %s", v, strings.Join(ds, " ;; "))
+	}
+	n := 0
+	var names []string
+	for w := range wrappers {
+		names = append(names, w)
+	}
+	sort.Strings(names)
+	for _, w1 := range names {
+		for _, w2 := range names {
+			for _, w3 := range []string{"plain", "default", "object"} {
+				spec := ObjectSpec{
+					"a": wrappers[w1](wrappers[w2](wrappers[w3](attr("name")))),
+					"b": wrappers[w2](attr("port")),
+				}
+				n++
+				pruned := map[string]cty.Value{}
+				for _, tr := range Variables(f.Body, spec) {
+					if v, ok := full[tr.RootName()]; ok {
+						pruned[tr.RootName()] = v
+					}
+				}
+				run := func(vars map[string]cty.Value) string {
+					v, d := Decode(f.Body, spec, &hcl.EvalContext{Variables: vars})
+					return key(v, d)
+				}
+				if r1, r2 := run(full), run(pruned); r1 != r2 {
+					var have []string
+					for k := range pruned {
+						have = append(have, k)
+					}
+					sort.Strings(have)
+					t.Errorf("REPLAY-FAIL func=hcldec.Variables input=%q attribute under %s(%s(%s)): reported roots %v; full scope gives %s, pruned scope gives %s", w1+"/"+w2+"/"+w3, w1, w2, w3, have, r1, r2)
+					return
+				}
+			}
+		}
+	}
+	fmt.Printf("STANDIN inputs=%d bound=\"%d specifications: an attribute under every three-deep combination of 10 wrapper kinds (default, validate, refine, object, tuple, block, block list, block map), decoded in the full scope and in the scope pruned to hcldec.Variables\"\n", n, n)
 }
